@@ -193,7 +193,7 @@ def check_data(datas, E, N, cfg, acc, only_call=None, only_commons=None):
 
 # ----------------------------------------------------------------------------- other legal representations of the same arguments
 REPR_CFG = dict(wl=1, Ks=[0, 2], fl=1, forms=["nan", "pair-huge", "int"], vals=["pow2"], wforms=False)
-REPR_KINDS = ["float32", "read-only", "fortran", "strided", "int-weights", "list-dims", "int32-dims"]
+REPR_KINDS = ["float32", "read-only", "fortran", "strided", "int-weights", "list-dims", "int32-dims", "loaded-dims"]
 
 
 def _each_array(arg, fn):
@@ -238,7 +238,47 @@ def represent(kind, f_arg, w_arg, denses, ws):
         return f_arg, w_arg, [d.tolist() for d in dims]
     if kind == "int32-dims":
         return f_arg, w_arg, [d.astype(numpy.int32) for d in dims]
+    if kind == "loaded-dims":
+        return f_arg, w_arg, dims      # the INDEX cube gets dimensions that went through IndxIO.save / load (read-only, file-backed row ids)
     raise KeyError(kind)
+
+
+_INDX_SEQ = 0
+
+
+def _through_indx(ix):
+    import os
+
+    from catii.iindexes import iindex
+    from catii.indxio import IndxIO
+
+    from .. import indx as _indx
+
+    # one file per index: the loaded row ids are views of the mapped file, a second save to the same path would rewrite them
+    global _INDX_SEQ
+    _INDX_SEQ += 1
+    path = os.path.join(_indx.scratch_dir(), "c3-%d-%d.indx" % (os.getpid(), _INDX_SEQ))
+    with open(path, "wb") as f:
+        IndxIO.save(f, ix, ix.common, ix.rowid_dtype)
+    with open(path, "rb") as f:
+        ents, cm, dt = IndxIO.load(f)
+    os.unlink(path)          # the mapping keeps the data alive
+    return iindex(ents, cm, tuple(ix.shape))
+
+
+def _relayout(ix, kind):
+    ix = ix.copy()
+    for k in list(dict.keys(ix)):
+        a = dict.__getitem__(ix, k)
+        if kind == "strided":
+            big = numpy.zeros(2 * len(a) + 1, dtype=numpy.uint32)
+            big[::2][:len(a)] = a
+            dict.__setitem__(ix, k, big[::2][:len(a)])
+        else:
+            a = a.copy()
+            a.flags.writeable = False
+            dict.__setitem__(ix, k, a)
+    return ix
 
 
 def repr_calls(N):
@@ -281,8 +321,15 @@ def check_repr(datas, E, N, acc, only_call=None, only_kind=None):
                 continue
             f2, w2, xdims = rep
             case = {"repr": kind, "data": [list(t) for t in datas], "E": E, "agg": agg, "ignore": ignore, "weights": ws, "fact": fs}
-            for cube_kind, mk in (("xcube", lambda: xcube(xdims, interacting_shape=shape)), ("ccube", lambda: ccube(idx, interacting_shape=shape))):
+            cdims = idx
+            if kind == "loaded-dims":
+                cdims = [_through_indx(ix) for ix in idx]
+            elif kind in ("read-only", "strided"):
+                cdims = [_relayout(ix, kind) for ix in idx]
+            for cube_kind, mk in (("xcube", lambda: xcube(xdims, interacting_shape=shape)), ("ccube", lambda: ccube(cdims, interacting_shape=shape))):
                 if cube_kind == "ccube" and kind in ("list-dims", "int32-dims"):
+                    continue
+                if cube_kind == "xcube" and kind == "loaded-dims":
                     continue
                 try:
                     v, m = Q.normalise(Q.call_cube(mk(), agg, f2, w2, ignore, Q.PAIR), Q.PAIR)
